@@ -141,6 +141,14 @@ def _daqmx_dims(data_objs):
     return [(r or 0, w_) for r, w_ in zip(rows, widths)] if widths is not None else []
 
 
+def logical_type(idx):
+    """The type of the channel's values: the index's type, except for a DAQmx raw data index that states an ordinary data
+    type (files of NI FlexLogger): such a channel is a plain array fed from its one scaler."""
+    if idx['type'] == 'daqmx' and idx['daqmx'].get('plain'):
+        return idx['daqmx']['scalers'][0]['type']
+    return idx['type']
+
+
 def _enc_index(L, idx, e):
     kind = L['index']
     if kind == 'same':
@@ -151,7 +159,12 @@ def _enc_index(L, idx, e):
         d = idx['daqmx']
         digital = d['kind'] == 'digital'
         out = struct.pack(e + 'L', fmt.DIGITAL_LINE if digital else fmt.FORMAT_CHANGING)
-        out += struct.pack(e + 'L', fmt.DAQMX_RAW_TYPE)
+        if d.get('plain'):
+            if len(d['scalers']) != 1 or digital:
+                raise SpecError('a DAQmx index with an ordinary data type has one format changing scaler')
+            out += struct.pack(e + 'L', fmt.TYPES[d['scalers'][0]['type']][0])
+        else:
+            out += struct.pack(e + 'L', fmt.DAQMX_RAW_TYPE)
         out += struct.pack(e + 'LQL', 1, idx['count'], len(d['scalers']))
         for sc in d['scalers']:
             code = fmt.DAQMX_CODES[sc['type']]
@@ -269,12 +282,12 @@ def build(spec, explicit=False, allow_forbidden=False):
                     if ch is None:
                         ch = w.chans[path] = Chan(path)
                     if idx is not None:
-                        if ch.type is not None and ch.type != idx['type']:
+                        if ch.type is not None and ch.type != logical_type(idx):
                             if not allow_forbidden:
                                 raise Forbidden('channel changes data type')
                             w.forbidden.append('channel changes data type')
                             # keep encoding: forget the old logical values, they are not compared
-                            ch.type = idx['type']
+                            ch.type = logical_type(idx)
                             ch.values = [] if ch.type == 'str' else bytearray()
                 if path not in seen:
                     seen.add(path)
@@ -295,7 +308,7 @@ def build(spec, explicit=False, allow_forbidden=False):
                 last[path] = idx
                 ch = w.chans[path]
                 if ch.type is None:
-                    ch.type = idx['type']
+                    ch.type = logical_type(idx)
                     if ch.type == 'daqmx':
                         ch.scalers = OrderedDict()
                         for sc in idx['daqmx']['scalers']:
@@ -304,11 +317,11 @@ def build(spec, explicit=False, allow_forbidden=False):
                         ch.values = []
                     else:
                         ch.values = bytearray()
-                elif ch.type != idx['type']:
+                elif ch.type != logical_type(idx):
                     if not allow_forbidden:
                         raise Forbidden('channel changes data type')
                     w.forbidden.append('channel changes data type')
-                    ch.type = idx['type']
+                    ch.type = logical_type(idx)
                     ch.values = [] if ch.type == 'str' else bytearray()
         data_objs = [(p, h, i) for (p, h, i) in active if h]
         for (p, h, i) in data_objs:
@@ -425,6 +438,9 @@ def build(spec, explicit=False, allow_forbidden=False):
                                 col = bytearray(b''.join(
                                     ((int.from_bytes(col[a:a + sz], 'little') >> bit) & 1).to_bytes(sz, 'little')
                                     for a in range(0, len(col), sz)))
+                        if d.get('plain'):
+                            ch.values += col          # a plain array of the scaler's type
+                            continue
                         ent = ch.scalers.get(sc['id'])
                         if ent is None:
                             ent = ch.scalers[sc['id']] = [sc['type'], bytearray()]
